@@ -19,13 +19,28 @@ struct CaseId
 {
   int ndim, nvar, klayout, kupat, kverr, kmodel, kdrift, kneigh;
   int kdisc = -1;  // >=0: block kriging on the grid target
+  double lscale = 1., vscale = 1.;  // common factor on all lengths / on all values (powers of two)
   std::string str() const
   {
-    char b[256];
+    char b[320];
     snprintf(b, sizeof b, "ndim=%d nvar=%d layout=%d upat=%d verr=%d model=%s drift=%s neigh=%s%s", ndim, nvar, klayout, kupat, kverr, model_name(kmodel), drift_name(kdrift),
              neigh_name(kneigh), kdisc >= 0 ? (" block-ndisc-menu=" + std::to_string(kdisc)).c_str() : "");
-    return b;
+    std::string r = b;
+    if (lscale != 1.) r += " all-lengths-x" + fmt(lscale);
+    if (vscale != 1.) r += " all-values-x" + fmt(vscale);
+    return r;
   }
+};
+
+// what a case produced, for the metamorphic comparison between scales
+struct CaseOut
+{
+  bool ran = false;
+  std::vector<VD> est, sd;                      // [nvar][nt]
+  std::vector<std::vector<int>> nbgh;           // [nt]
+  std::vector<std::vector<VD>> wgt;             // [nt][nvar][nr]   (empty when not judged)
+  std::vector<double> kappa;                    // [nt]  (<0: not judged)
+  std::vector<std::vector<double>> scaleEst, scaleVar;  // [nt][nvar]
 };
 
 static std::string mechKey(const CaseId& c, const char* what)
@@ -36,12 +51,13 @@ static std::string mechKey(const CaseId& c, const char* what)
 }
 
 // run one case on the real code and judge every target. Returns false when the case is not applicable.
-static void judgeCase(Ctx& C, const CaseId& c, uint64_t id)
+static void judgeCase(Ctx& C, const CaseId& c, uint64_t id, CaseOut* out = nullptr)
 {
   KData d = make_data(c.ndim, c.nvar, c.klayout, c.kupat, c.kverr, drift_fext(c.kdrift));
   if (c.kdisc >= 0) set_grid(d, c.kdisc);
+  if (c.lscale != 1. || c.vscale != 1.) d = scaled(d, c.lscale, c.vscale);
   int n = d.n();
-  KBuilt b(d, c.kmodel, c.kdrift, c.kneigh);
+  KBuilt b(d, c.kmodel, c.kdrift, c.kneigh, c.lscale, c.vscale);
   std::string kase = std::to_string(id);
   bool stationary = !model_is_intrinsic(c.kmodel);
   bool wantVarz = stationary;
@@ -71,6 +87,14 @@ static void judgeCase(Ctx& C, const CaseId& c, uint64_t id)
     }
 
   Reference ref(d, b.model, c.kdrift);
+  ref.meanScale = c.vscale;
+  const double vs1 = c.vscale, vs2 = c.vscale * c.vscale;  // units of the values / of the variances
+  if (out)
+  {
+    out->ran = true; out->est = est; out->sd = sd;
+    out->nbgh.assign(nt, std::vector<int>()); out->wgt.assign(nt, std::vector<VD>()); out->kappa.assign(nt, -1.);
+    out->scaleEst.assign(nt, VD(c.nvar, 0.)); out->scaleVar.assign(nt, VD(c.nvar, 0.));
+  }
   std::vector<int> ubf = unique_nbgh(d);
   bool block = c.kdisc >= 0;
   std::map<std::vector<int>, RefSystem> cache;
@@ -166,7 +190,7 @@ static void judgeCase(Ctx& C, const CaseId& c, uint64_t id)
           if (stationary && res.var.getNRows() > v0)
           {
             double s0 = res.var.getValue(v0, v0);
-            if (!(std::fabs(s0 - (double)R.s0) <= TOL * std::max(1., (double)fabsl(R.s0))))
+            if (!(std::fabs(s0 - (double)R.s0) <= TOL * std::max(vs2, (double)fabsl(R.s0))))
             {
               C.violation(mechKey(c, "var0") + flavour, "krigtest().var = " + fmt(s0) + " reference sigma0^2 = " + fmt((double)R.s0) + "; " + info(), tcase);
               okAll = false;
@@ -176,7 +200,7 @@ static void judgeCase(Ctx& C, const CaseId& c, uint64_t id)
       }
       // --- estimate
       double e = est[v0][t];
-      if (FFFF(e) || !(std::fabs(e - (double)R.estim) <= tol * std::max(1., (double)R.scaleEst)))
+      if (FFFF(e) || !(std::fabs(e - (double)R.estim) <= tol * std::max(vs1, (double)R.scaleEst)))
       {
         C.violation(mechKey(c, "estim") + flavour, "estimate = " + fmt(e) + " reference " + fmt((double)R.estim) + "; " + info(), tcase);
         okAll = false;
@@ -199,6 +223,17 @@ static void judgeCase(Ctx& C, const CaseId& c, uint64_t id)
         {
           C.violation(mechKey(c, "varz") + flavour, "varz = " + fmt(z) + " reference lambda^t Sigma lambda = " + fmt((double)R.varz) + "; " + info(), tcase);
           okAll = false;
+        }
+      }
+      if (out)
+      {
+        out->nbgh[t] = nbgh; out->kappa[t] = kappa;
+        out->scaleEst[t][v0] = std::max(vs1, (double)R.scaleEst) / vs1; out->scaleVar[t][v0] = std::max(1e-300, sv) / vs2;
+        if (haveRes && res.wgt.getNRows() == S.nr + S.nfeq && res.wgt.getNCols() == c.nvar)
+        {
+          if (out->wgt[t].empty()) out->wgt[t].assign(c.nvar, VD());
+          out->wgt[t][v0].resize(S.nr);
+          for (int a = 0; a < S.nr; a++) out->wgt[t][v0][a] = res.wgt.getValue(a, v0);
         }
       }
       C.outcome(okAll ? "agree" : "DISAGREE");
@@ -282,6 +317,77 @@ VF_PART(block)
   M.upatMax = 1 + 2;  // none + the first two single cells (thorough: all)
   if (C.thorough()) M.upatMax = maxUpat(M);
   runMenus(C, M);
+}
+
+// SCALE axis: every case of a sub-menu (anisotropic / rotated / nested models, 2-D and 3-D, unique and moving neighbourhoods,
+// point and block targets) is run with ALL lengths (coordinates of data and targets, ranges, neighbourhood radius, grid mesh)
+// multiplied by 2^-10, 2^-20, 2^10, 2^20 and / or all values multiplied by 2^-8, 2^6 (sills and measurement errors by the
+// square, known means by the factor).  Each scaled run is judged against the reference system built AT THAT SCALE (same oracle
+// as point_core), and, metamorphically, against the unscaled run: same neighbours, same weights, estimates x value factor,
+// stdev x value factor.  (Kriging is invariant under a common rescaling of lengths for range-parameterised models; with a
+// polynomial drift the weights and estimates are still invariant, only the conditioning of the system changes - cases whose
+// scaled system has kappa > 1e8 are excluded and counted as everywhere else.)
+VF_PART(scale)
+{
+  std::vector<int> ndims = {2, 3}, nvars = {1, 2}, layouts = {2, 3}, upats = {0, 1}, verrs = {0, 2}, models = {5, 6, 7, 8, 10}, drifts = {1, 2, 3}, neighs = {0, 2, 3, 6}, discs = {-1, 1};
+  if (C.thorough()) { layouts = {1, 2, 3, 5}; upats = {0, 1, 2}; models = {1, 3, 5, 6, 7, 8, 10}; drifts = {1, 2, 3, 5}; neighs = {0, 1, 2, 3, 4, 6}; discs = {-1, 1, 2}; }
+  static const double TR[7][2] = {{1. / 1024, 1}, {1. / 1048576, 1}, {1024, 1}, {1048576, 1}, {1, 1. / 256}, {1, 64}, {1. / 1024, 64}};
+  Space sp;
+  sp.axis("neigh", (int)neighs.size()).axis("drift", (int)drifts.size()).axis("model", (int)models.size()).axis("ndim", (int)ndims.size()).axis("nvar", (int)nvars.size());
+  sp.axis("layout", (int)layouts.size()).axis("upat", (int)upats.size()).axis("verr", (int)verrs.size()).axis("disc", (int)discs.size());
+  for_each_case(C, sp, [&](uint64_t id, const std::vector<int>& ix) {
+    CaseId c;
+    c.kneigh = neighs[ix[0]]; c.kdrift = drifts[ix[1]]; c.kmodel = models[ix[2]]; c.ndim = ndims[ix[3]]; c.nvar = nvars[ix[4]];
+    c.klayout = layouts[ix[5]]; c.kupat = upats[ix[6]]; c.kverr = verrs[ix[7]]; c.kdisc = discs[ix[8]];
+    if (!combo_valid(c.ndim, c.kmodel, c.kdrift, c.kneigh)) { C.outcome("combination-documented-invalid"); return; }
+    std::string kase = std::to_string(id);
+    CaseOut base;
+    judgeCase(C, c, id, &base);
+    if (!base.ran) return;
+    int nt = (int)base.kappa.size();
+    for (int q = 0; q < 7; q++)
+    {
+      CaseId cs = c;
+      cs.lscale = TR[q][0]; cs.vscale = TR[q][1];
+      CaseOut o;
+      judgeCase(C, cs, id, &o);
+      if (!o.ran) { C.violation("scale:kriging-refused", "kriging() fails on the rescaled problem; " + cs.str(), kase); continue; }
+      std::string tag = cs.lscale != 1. ? (cs.lscale < 1 ? "lengths-down" : "lengths-up") : (cs.vscale < 1 ? "values-down" : "values-up");
+      for (int t = 1; t < nt; t++)
+      {
+        if (base.kappa[t] < 0) continue;
+        if (o.kappa[t] < 0) { C.skip(); C.outcome("excluded:scaled-system-ill-conditioned-or-undefined"); continue; }
+        C.eval();
+        std::string info = cs.str() + " target#" + std::to_string(t) + " nbgh=" + vstr(base.nbgh[t]) + " kappa=" + fmt(std::max(base.kappa[t], o.kappa[t]));
+        if (o.nbgh[t] != base.nbgh[t])
+        {
+          C.violation("scale:neighbours-differ:" + tag, "neighbours " + vstr(o.nbgh[t]) + " after rescaling, " + vstr(base.nbgh[t]) + " before; " + info, kase);
+          C.outcome("scale:VIOLATED");
+          continue;
+        }
+        double tol = 2 * TOL * std::max(1., std::max(base.kappa[t], o.kappa[t]));
+        bool ok = true;
+        for (int v = 0; v < c.nvar && ok; v++)
+        {
+          double e0 = base.est[v][t], e1 = o.est[v][t] / cs.vscale, s0 = base.sd[v][t], s1 = o.sd[v][t] / cs.vscale;
+          if (!(std::fabs(e1 - e0) <= tol * std::max(base.scaleEst[t][v], o.scaleEst[t][v])))
+          { C.violation("scale:estimate:" + tag, "estimate " + fmt(o.est[v][t]) + " / value factor = " + fmt(e1) + " differs from the unscaled run " + fmt(e0) + "; var=" + std::to_string(v) + " " + info, kase); ok = false; }
+          else if (!(std::fabs(s1 * s1 - s0 * s0) <= tol * std::max(base.scaleVar[t][v], o.scaleVar[t][v])))
+          { C.violation("scale:stdev:" + tag, "stdev " + fmt(o.sd[v][t]) + " / value factor = " + fmt(s1) + " differs from the unscaled run " + fmt(s0) + "; var=" + std::to_string(v) + " " + info, kase); ok = false; }
+          else if (!base.wgt[t].empty() && !o.wgt[t].empty() && base.wgt[t][v].size() == o.wgt[t][v].size())
+          {
+            double mw = 1;
+            for (double w : base.wgt[t][v]) mw = std::max(mw, std::fabs(w));
+            for (size_t a = 0; a < base.wgt[t][v].size(); a++)
+              if (!(std::fabs(base.wgt[t][v][a] - o.wgt[t][v][a]) <= tol * mw))
+              { C.violation("scale:weights:" + tag, "weight #" + std::to_string(a) + " = " + fmt(o.wgt[t][v][a]) + " after rescaling, " + fmt(base.wgt[t][v][a]) + " before; var=" + std::to_string(v) + " " + info, kase); ok = false; break; }
+          }
+        }
+        C.outcome(ok ? "scale:invariant:" + tag : "scale:VIOLATED");
+      }
+    }
+    C.nontrivial(id);
+  });
 }
 
 // The observation interface itself: krigtest(iech0=0) on a multi-target Db (known finding) and the lhs/rhs export.
